@@ -32,11 +32,19 @@ theorem bad_ack_closes {s s' : RState} {id : Nat} {c : Conn} {pkid : Nat} {pkt :
   have hc0 : getConn (setLink s c.link { getLink s c.link with ibuf := [] }) id = some c := hc
   rw [handlePacket_bad_ack hc0 hpkt hhead] at h
   simp only [if_true, Bool.false_eq_true, if_false] at h
-  rcases handleDisconnection_effect h with ⟨hn, _⟩ | ⟨c', hc', e1, _, _, e4⟩
-  · rw [getConn_setConn_live hc0] at hn; simp at hn
-  · rw [getConn_setConn_live hc0] at hc'
-    simp only [if_true, Option.some.injEq] at hc'
+  split at h
+  · simp at h
+  rename_i s2 h2
+  have hc1 := getConn_setConn_live hc0 { c with out := (c.out.registerAck pkid).1 } id
+  simp only [if_true] at hc1
+  obtain ⟨c2, hc2, t, rfl⟩ := (wakeTurnMoved_shape h2).live hc1
+  have hg2 : s2.ghost = s.ghost := (wakeTurnMoved_wakeFrame h2).ghost
+  rcases handleDisconnection_effect h with ⟨hn, _⟩ | ⟨c', s1, logs, hc', e1, _, _, e4, hw⟩
+  · rw [hc2] at hn; simp at hn
+  · rw [hc2] at hc'
+    simp only [Option.some.injEq] at hc'
     subst hc'
-    exact ⟨by rw [getConn_remove _ s' id id e1]; simp, e4⟩
+    exact ⟨by rw [(wakeParked_shape hw).none_iff, getConn_remove _ s1 id id e1]; simp,
+      by rw [(wakeParked_wakeFrame hw).ghost, e4, hg2]⟩
 
 end Router
